@@ -74,7 +74,7 @@ type Violation struct {
 	Sig      string      `json:"sig"`            // dedupe signature
 	Tags     []string    `json:"tags,omitempty"` // named predicates that hold for the case
 	Detail   string      `json:"detail"`
-	Case     interface{} `json:"case,omitempty"`
+	Case     json.RawMessage `json:"case,omitempty"`
 }
 
 // C is the context of one running case.
@@ -121,12 +121,29 @@ func (c *C) Violation(class, sig, detail string) {
 		detail = detail[:6000] + "…"
 	}
 	v := Violation{Property: c.Prop, Suite: c.Suite, Idx: c.Idx, Seed: c.Seed, Tier: c.Tier,
-		Class: class, Sig: sig, Tags: append([]string(nil), c.tags...), Detail: detail, Case: c.desc}
+		Class: class, Sig: sig, Tags: append([]string(nil), c.tags...), Detail: detail, Case: rawJSON(c.desc)}
 	c.w.addViolation(v)
 }
 
 func (c *C) Violationf(class, sig, format string, args ...interface{}) {
 	c.Violation(class, sig, fmt.Sprintf(format, args...))
+}
+
+func rawJSON(v interface{}) json.RawMessage {
+	if v == nil {
+		return nil
+	}
+	if r, ok := v.(json.RawMessage); ok {
+		return r
+	}
+	b, err := json.Marshal(v)
+	if err != nil {
+		b, _ = json.Marshal(fmt.Sprintf("%v", v))
+	}
+	if len(b) > 1<<20 {
+		b, _ = json.Marshal("case too large")
+	}
+	return b
 }
 
 // Failed reports whether this case has raised a violation so far.
